@@ -85,16 +85,23 @@ pub fn normalize_reference() {
     cover!(got != cp, "character that is normalized");
 }
 
-/// every place that normalizes a haystack character sees the same result
-pub fn coherence() {
+/// every place that normalizes a haystack character sees the same result (split into four
+/// harnesses: each symbolic search of the 1454-entry folding table costs ~2 GB in CBMC)
+pub fn coherence_norm() {
     let c = any_char();
     let sc = sym_config(None);
     let cfg = &sc.cfg;
     let n1 = Char::normalize(c, cfg);
-    let (n2, class2) = c.char_class_and_normalize(cfg);
-    let class1 = c.char_class(cfg);
+    let (n2, _) = c.char_class_and_normalize(cfg);
     check!(n1 == n2, "C16 filtering (normalize) and scoring (char_class_and_normalize) see the same normalized character");
-    check!(class1 == class2, "C16 char_class and char_class_and_normalize agree on the class");
+    cover!(n1 != c, "character changed by normalization");
+}
+
+pub fn coherence_compose() {
+    let c = any_char();
+    let sc = sym_config(None);
+    let cfg = &sc.cfg;
+    let n1 = Char::normalize(c, cfg);
     // the documented composition of the two public maps
     let mut want = c;
     if cfg.normalize {
@@ -104,18 +111,41 @@ pub fn coherence() {
         want = chars::to_lower_case(want);
     }
     check!(n1 == want, "C16 haystack normalization is Latin normalization followed by case folding, as configured");
-    if (c as u32) < 128 {
-        let a = AsciiChar(c as u8);
-        let an = Char::normalize(a, cfg);
-        let (an2, ac2) = a.char_class_and_normalize(cfg);
-        check!(an.0 as u32 == n1 as u32 && an2.0 as u32 == n1 as u32, "C16 the byte and the code-point representation normalize ASCII identically");
-        check!(a.char_class(cfg) == class1 && ac2 == class1, "C16 the byte and the code-point representation classify ASCII identically");
-    }
     cover!(n1 != c, "character changed by normalization");
+}
+
+pub fn coherence_class() {
+    let c = any_char();
+    let sc = sym_config(None);
+    let cfg = &sc.cfg;
+    let (_, class2) = c.char_class_and_normalize(cfg);
+    let class1 = c.char_class(cfg);
+    check!(class1 == class2, "C16 char_class and char_class_and_normalize agree on the class");
+}
+
+pub fn coherence_ascii() {
+    let b = sym::ascii();
+    let c = b as char;
+    let sc = sym_config(None);
+    let cfg = &sc.cfg;
+    let n1 = Char::normalize(c, cfg);
+    let (n2, class2) = c.char_class_and_normalize(cfg);
+    let class1 = c.char_class(cfg);
+    let a = AsciiChar(b);
+    let an = Char::normalize(a, cfg);
+    let (an2, ac2) = a.char_class_and_normalize(cfg);
+    check!(an.0 as u32 == n1 as u32 && an2.0 as u32 == n1 as u32 && n2 == n1, "C16 the byte and the code-point representation normalize ASCII identically");
+    check!(a.char_class(cfg) == class1 && ac2 == class1 && class2 == class1, "C16 the byte and the code-point representation classify ASCII identically");
+    let want = if cfg.ignore_case && b >= 65 && b <= 90 { b + 32 } else { b };
+    check!(an.0 == want, "C16 haystack normalization leaves ASCII other than A-Z (under case folding) untouched");
+    cover!(an.0 != b, "ASCII character folded");
 }
 
 harnesses! {
     chars_fold_reference [16] => fold_reference();
     chars_normalize_reference [16] => normalize_reference();
-    chars_coherence [64] => coherence();
+    chars_coherence_norm [16] => coherence_norm();
+    chars_coherence_compose [16] => coherence_compose();
+    chars_coherence_class [16] => coherence_class();
+    chars_coherence_ascii [16] => coherence_ascii();
 }
